@@ -206,7 +206,7 @@ def directives(pi: int, hi: int, ver_minor: int, explicit: bool) -> str:
     return 'ok'
 
 
-DOC_TAGS = [None, {'!e!': 't:a/'}]
+DOC_TAGS = [None, {'!e!': 't:a/'}, {'!e!': 't:b/', '!f!': 't:a/'}]     # the third rebinds the handle and names the prefix otherwise
 NODE_TAGS = [None, 't:a/foo', 't:a/', T, T + 'str', '!', '!local']
 
 
@@ -427,15 +427,17 @@ def jobs(tier):
                               'tag' if w == 0 else '%TAG prefix', lo, hi - 1)))
     NG = len(NODE_TAGS)
     for r in range(6):
-        # quick: first document free, second document {plain scalar, sequence} root with every directive / tag combination
-        js.append(Job('multidoc/first-root=%d' % r, multidoc,
-                      [lambda n, r0, r1, r2, v0, v1, v2, t0, t1, t2, e0, e1, e2, g0, g1, g2, s0, s1, s2, _r=r:
-                       r0 == _r and 0 <= t0 <= 1 and 0 <= t1 <= 1 and 0 <= g1 < NG and
-                       ((n == 2 and g0 == 0 and not s0 and (r1 == 0 or r1 == 3) and r2 == 0 and not v2 and t2 == 0 and not e2 and g2 == 0 and not s2 and not s1) if q else
-                        (2 <= n <= 3 and 0 <= g0 < NG and 0 <= r1 <= 5 and (r2 == 0 or r2 == 3) and 0 <= t2 <= 1 and 0 <= g2 <= 2))],
-                      budget=200 if q else 1500, exhaust=q,
-                      bounds='streams of 2 documents (3 in the thorough tier): first root kind %d of 6 (plain / double-quoted / literal-keep scalar, block sequence, flow mapping, empty scalar) x %%YAML x %%TAG x explicit end; '
-                             'second document: %%YAML x %%TAG x explicit end x root tag in 7 kinds (none, handle+suffix, exactly a %%TAG prefix, exactly the !! prefix, !!str, !, !local)' % r))
+        for t in range(len(DOC_TAGS)):
+            # quick: first document free, second document {plain scalar, sequence} root with every directive / tag combination
+            js.append(Job('multidoc/first-root=%d/tags=%d' % (r, t), multidoc,
+                          [lambda n, r0, r1, r2, v0, v1, v2, t0, t1, t2, e0, e1, e2, g0, g1, g2, s0, s1, s2, _r=r, _t=t:
+                           r0 == _r and t0 == _t and 0 <= t1 <= 2 and 0 <= g1 < NG and
+                           ((n == 2 and 0 <= g0 <= 1 and not s0 and (r1 == 0 or r1 == 3) and r2 == 0 and not v2 and t2 == 0 and not e2 and g2 == 0 and not s2 and not s1) if q else
+                            (2 <= n <= 3 and 0 <= g0 < NG and 0 <= r1 <= 5 and (r2 == 0 or r2 == 3) and 0 <= t2 <= 2 and 0 <= g2 <= 2))],
+                          budget=200 if q else 1500, exhaust=q,
+                          bounds='streams of 2 documents (3 in the thorough tier): first root kind %d of 6 (plain / double-quoted / literal-keep scalar, block sequence, flow mapping, empty scalar), %%TAG set %d of 3 '
+                                 '(none, one handle, the handle rebound and the prefix under another handle) x untagged / handle+suffix root x %%YAML x explicit end; '
+                                 'second document: %%YAML x %%TAG in 3 x explicit end x root tag in 7 kinds (none, handle+suffix, exactly a %%TAG prefix, exactly the !! prefix, !!str, !, !local)' % (r, t)))
     js.append(Job('directives', directives, [lambda pi, hi, ver_minor, explicit: 0 <= pi < len(PREFIX_CHARS) and 0 <= hi < len(HANDLE_CHARS) and 0 <= ver_minor <= 2],
                   budget=200 if q else 600, bounds='%%TAG !<h>! t:<p> over %d prefix and %d handle class representatives x %%YAML 1.0-1.2 x explicit' % (len(PREFIX_CHARS), len(HANDLE_CHARS))))
     IN = 4 if q else 5
